@@ -121,7 +121,13 @@ class StreamableHTTPTransport(Transport):
 
         try:
             async for message in self._outgoing_recv:
-                await self._send_message_via_http(message)
+                try:
+                    await self._send_message_via_http(message)
+                except Exception as e:
+                    # One message that cannot be sent (whatever its exception is,
+                    # even one whose text cannot be produced) must not end the
+                    # sender: the messages after it still have to go out
+                    logger.error("Error sending message: %s", type(e).__name__)
         except asyncio.CancelledError:
             pass
         except Exception as e:
